@@ -187,7 +187,7 @@ def r4_createcopy(rep, ctx):
     fn = m.method("AbstractValueWithQuantityObject", "CreateCopy")
     res = Resolver(m, fn)
     calls = [c for c in own_nodes(fn.node) if isinstance(c, ast.Call) and isinstance(c.func, ast.Attribute) and c.func.attr == "CreateWithQuantity"]
-    rep.floor("C13.R4", "CreateWithQuantity calls in CreateCopy", len(calls), 3)
+    rep.floor("C13.R4", "CreateWithQuantity calls in CreateCopy", len(calls), 1)
     for c in calls:
         val = next((k.value for k in c.keywords if k.arg == "value"), None)
         t = res.term(val) if val is not None else None
